@@ -112,7 +112,8 @@ def harnesses(tier, seed):
         for y in (ys_lin if st.startswith("lin") else ys_exp):
             yi = sum(y)
             _judge(ctx, {"strategy": st, "x": list(xp), "y": list(y), "n": n, "p": RC.pkey(p),
-                         "y_off": float(2 ** 40) if yi % 7 == 3 else 0, "twice": yi % 5 == 1})
+                         "y_off": float(2 ** 40) if yi % 7 == 3 else 0, "twice": yi % 5 == 1,
+                         "x_img": (None, None, "tiny", None, "jitter", None)[yi % 6], "poison": yi % 4 == 2})
         if n == 5 and xp == W.XPATTERNS[0] and st == "expada" and p.get("exp") == 2 and p.get("alpha") == 1:
             ctx.sample({"strategy": st, "x": list(xp), "n": n, "p": RC.pkey(p), "y": "all of the value lattice ^5"})
 
